@@ -317,6 +317,18 @@ RestoreMonitors(r) ==
         THEN ContainmentMonitors(g.healthy, fs, r.band, T0, r.res # "ok" \/ r.mon_errors > 0,
                                  IF r.res = "ok" THEN r.mon_errors ELSE 1000, r.res = "ok", g.dmghow, g.dmgkey)
         ELSE {})
+  \* C16 at system-call level (the restore ran under strace): every path-taking call that creates or
+  \* modifies something stays inside the destination, never goes *through* a restored symlink, and
+  \* when it names a restored symlink itself it is the no-follow variant
+  \cup (IF r.traced THEN
+          LET kindAt(p) == IF \E e \in SeqRange(es) : e.p = p THEN (CHOOSE e \in SeqRange(es) : e.p = p).k ELSE "none" IN
+          UNION { (IF ~c.inside THEN {<<"SyscallEscaped", <<"outside", c.call, c.path>> >>} ELSE {})
+             \cup (IF c.inside /\ \E i \in 1..(Len(c.rel) - 1) : kindAt(SubSeq(c.rel, 1, i)) = "Symlink"
+                   THEN {<<"SyscallEscaped", <<"through-symlink", c.call, c.path>> >>} ELSE {})
+             \cup (IF c.inside /\ kindAt(c.rel) = "Symlink" /\ ~c.nofollow
+                   THEN {<<"SyscallEscaped", <<"followed-symlink", c.call, c.path>> >>} ELSE {})
+                : c \in SeqRange(r.syscalls) }
+        ELSE {})
   \cup If(judged /\ r.res = "ok" /\ plain /\ Complete(fs, b) /\ b \in (DOMAIN g.snap) \ g.partial /\ T # g.snap[b],
           {<<"RestoreDiffersFromSnapshot", <<b, TreeDiff(g.snap[b], T)>> >>})
 
